@@ -295,16 +295,60 @@ theorem Inv_remove (m : Container) (k : Nat) (h : Inv m) : Inv (m.remove k).1 :=
       exact this.nodup h.nodupIds
     seq := fun j hj => h.seq j (hsub j hj) }
 
+/-- a service added to an accessory object (served or not): the object keeps its accessory id and is numbered anew -/
+theorem Inv_addSvc (m : Container) (k : Nat) (sp : SvcSpec) (h : Inv m) : Inv (m.addSvc k sp).1 := by
+  unfold Container.addSvc
+  cases hk : m.pool[k]? with
+  | none => simpa using h
+  | some a =>
+    have hlt : k < m.pool.length := (List.getElem?_eq_some_iff.mp hk).1
+    let a2 := a.addService sp.build
+    have hid : a2.id = a.id := rfl
+    have key : ∀ j, idOfP (m.pool.set k a2) j = idOfP m.pool j := by
+      intro j
+      by_cases hjk : j = k
+      · subst hjk
+        rw [idOfP_set_self _ _ _ hlt, hid]; simp [idOfP, hk]
+      · exact idOfP_set_ne _ _ _ _ hjk
+    have hseq2 := updateIDs_seq ({ a with svcs := a.svcs ++ [sp.build] } : Acc)
+    exact {
+      cnt := h.cnt
+      poolCnt := by
+        intro x hx
+        rcases List.mem_or_eq_of_mem_set hx with hx | hx
+        · exact h.poolCnt x hx
+        · rw [hx]; show 1 ≤ (Acc.updateIDs _).idCount; rw [hseq2.2]; omega
+      nodupIdx := h.nodupIdx
+      nz := fun j hj => by show idOfP (m.pool.set k a2) j ≠ 0; rw [key j]; exact h.nz j hj
+      inKeys := fun j hj => by show idOfP (m.pool.set k a2) j ∈ m.keys; rw [key j]; exact h.inKeys j hj
+      nodupIds := by
+        show (m.accs.map (idOfP (m.pool.set k a2))).Nodup
+        rw [map_congr_mem (fun j _ => key j)]; exact h.nodupIds
+      seq := by
+        intro j hj x hx
+        by_cases hjk : j = k
+        · subst hjk
+          have hx' : (m.pool.set j a2)[j]? = some x := hx
+          rw [List.getElem?_set_self hlt] at hx'
+          cases hx'
+          exact ⟨1, Nat.le_refl 1, hseq2.1⟩
+        · have hx' : (m.pool.set k a2)[j]? = some x := hx
+          rw [List.getElem?_set_ne (Ne.symm hjk)] at hx'
+          exact h.seq j hj x hx' }
+
 theorem Inv_step (m : Container) (o : Op) (h : Inv m) : Inv (m.step o).1 := by
   cases o with
   | add k => exact Inv_add m k h
   | remove k => exact Inv_remove m k h
+  | addSvc k s => exact Inv_addSvc m k s h
 
 theorem Inv_run (m : Container) (ops : List Op) (h : Inv m) : Inv (m.run ops).1 := by
   induction ops generalizing m with
   | nil => exact h
   | cons o r ih => exact ih _ (Inv_step m o h)
 
-theorem build_idCount (s : AccSpec) : s.build.idCount = 1 := rfl
+theorem build_idCount (s : AccSpec) : 1 ≤ s.build.idCount := by
+  show 1 ≤ (Acc.updateIDs _).idCount
+  rw [(updateIDs_seq _).2]; omega
 
 end Hc.Ids
